@@ -29,6 +29,8 @@ class Explorer:
         self.tainted_calls = tainted_calls  # optional predicate(call node) -> bool: result is 'T'
         self.noreturn = prog.noreturn_nodes(fn) if prog else set()
         self.states = 0
+        self._start_call = None
+        self._initial = False
 
     # ----- expression evaluation ------------------------------------------------------
     def eval(self, e, env):
@@ -38,7 +40,9 @@ class Explorer:
         k = e.get("k")
         if k == "c":
             if self.src is not None and e.get("id") == self.src:
-                return "T"
+                # the tracked failure is the *first* execution of the call site: once the site is
+                # executed again (next loop iteration) its result is unknown
+                return env.get("__src__") if isinstance(env, dict) else dict(env).get("__src__")
             if self.tainted_calls and self.tainted_calls(e):
                 return "T"
             return None
@@ -157,6 +161,11 @@ class Explorer:
         if not ev:
             return envf
         if ev["e"] == "C":
+            if self.src is not None and ev["x"].get("id") == self.src and not self._initial:
+                d = dict(envf)
+                if "__src__" in d:
+                    del d["__src__"]
+                    envf = frozenset(d.items())
             return self._kill_addr_taken(ev["x"], envf)
         if ev["e"] != "S":
             return envf
@@ -253,7 +262,13 @@ class Explorer:
         Returns list of terminal states (node, env, flags, parent-chain id) reached at function
         exit or at nodes for which stop_at(node) is true.  Paths ending in noreturn calls are
         dropped."""
-        env0 = frozenset((env0 or {}).items())
+        env0 = dict(env0 or {})
+        if self.src is not None:
+            env0["__src__"] = "T"
+            for s0 in start_nodes:
+                if s0.ev and s0.ev["e"] == "C" and s0.ev["x"].get("id") == self.src:
+                    self._start_call = s0
+        env0 = frozenset(env0.items())
         seen = {}
         dq = deque()
         terms = []
@@ -281,7 +296,9 @@ class Explorer:
                     terms.append((node, dict(env), flags, st))
                     if node is exitn or (stop_at is not None and stop_at(node)):
                         continue
+                self._initial = (seen.get(st, 0) is None and node is self._start_call)
                 env = self.step(node, env)
+                self._initial = False
             succ = self.fn.succ(node)
             if not succ:
                 continue
